@@ -826,6 +826,9 @@ func (w *World) selectOp(t *Thread, f *Frame, i *ssa.Select) bool {
 func (w *World) callee(t *Thread, f *Frame, c ssa.CallCommon) (FuncV, []Val) {
 	var args []Val
 	if c.IsInvoke() {
+		if isKVInvoke(&c) && !isHarnessFn(f.fn) {
+			w.eng.noteMutSite(siteFn(f.fn) + ":" + c.Method.Name())
+		}
 		recv, ok := w.val(f, c.Value).(IfaceV)
 		if !ok {
 			panic(engErr(fmt.Sprintf("invoke on %T", w.val(f, c.Value))))
